@@ -13,7 +13,8 @@ Ltac w2 := right; left.
 Ltac w3 := right; right; left.
 Ltac w4 := right; right; right; left.
 Ltac w5 := right; right; right; right; left.
-Ltac w6 := right; right; right; right; right.
+Ltac w6 := right; right; right; right; right; left.
+Ltac w7 := right; right; right; right; right; right.
 
 Lemma keep1 s e s' j : SI s -> step0 s e = Some s' -> W1 s j -> Wit s' j.
 Proof.
@@ -102,5 +103,11 @@ Proof.
       * destruct (si_ap s HS d0 Hd Ec) as [u Hu].
         assert (Nu : u <> t) by (intros ->; rewrite Heql in Hu; discriminate Hu).
         exists r, d0, u. simpl. rewrite upd_same, (upd_other _ _ _ _ Nu). repeat split; auto. apply addhd_chainhd, Hu.
+    + w2. exists r, d. rewrite (upd_other _ _ _ _ Nd). auto.
+  - (* somebody else cancels the delegate future *)
+    destruct (Nat.eq_dec d d0) as [->|Nd].
+    + w7. exists r, d0. simpl. rewrite upd_same. repeat split; auto.
+      * destruct (ds s d0); simpl in *; congruence.
+      * exists (clock s). left. reflexivity.
     + w2. exists r, d. rewrite (upd_other _ _ _ _ Nd). auto.
 Qed.
